@@ -13,7 +13,7 @@ pub const DEF: PropDef = PropDef {
     id: "C16",
     run,
     oracle,
-    rule: "cases = results of conformant V9/IPFIX/V5/V7 histories (wide mode, value bias towards 128-bit counters >= 2^64, NaN/+-inf/-0.0/subnormal floats, invalid UTF-8, quotes, backslashes and control characters in strings, empty and 254/255/256-byte variable-length values, 3- and 16-byte numbers) and of hostile histories (error elements with arbitrary remaining bytes, odd-shaped V9/IPFIX packets); two parser instances per case. Oracle: (1) serde_json::to_string and to_writer succeed for the whole result vector and for each element and agree; (2) the text parses with the harness' own RFC 8259 reader (numbers as text, member order kept); (3) serialising twice, and serialising the results of a second parser instance fed the same history, gives identical text; (4) faithfulness walk: an expected tree is built from the Rust values by the harness (variant names via Debug, integers incl. u128 as decimal text, addresses via Display, durations as {secs,nanos}, strings verbatim, bytes as number arrays, error kinds and remaining bytes) and compared with the parsed JSON: struct members by name with no member missing (unknown additional members are ignored), record maps with their keys in ascending field order; finite floats must parse back to the same f64 bits, non-finite floats must be null (serde_json's documented behaviour). non-trivial = the result holds a u128 >= 2^64, a non-finite float, a string needing escapes or holding U+FFFD, an error element, or >= 2 data records; distinct by digest.",
+    rule: "cases = results of conformant V9/IPFIX/V5/V7 histories (wide mode, value bias towards 128-bit counters >= 2^64, NaN/+-inf/-0.0/subnormal floats, invalid UTF-8, quotes, backslashes and control characters in strings, empty and 254/255/256-byte variable-length values, 3- and 16-byte numbers) and of hostile histories (error elements with arbitrary remaining bytes, odd-shaped V9/IPFIX packets); two parser instances per case. Oracle: (1) serde_json::to_string and to_writer succeed for the whole result vector and for each element and agree; (2) the text parses with the harness' own RFC 8259 reader (numbers as text, member order kept); (3) serialising twice (also once more after the rest of the history has been parsed), and serialising the results of a second parser instance fed the same history, gives identical text; (4) faithfulness walk: an expected tree is built from the Rust values by the harness (variant names via Debug, integers incl. u128 as decimal text, addresses via Display, durations as {secs,nanos}, strings verbatim, bytes as number arrays, error kinds and remaining bytes) and compared with the parsed JSON: struct members by name with no member missing (unknown additional members are ignored), record maps with their keys in ascending field order; finite floats must parse back to the same f64 bits, non-finite floats must be null (serde_json's documented behaviour). non-trivial = the result holds a u128 >= 2^64, a non-finite float, a string needing escapes or holding U+FFFD, an error element, or >= 2 data records; distinct by digest.",
     assumptions: &["streaming serialisation (to_string/to_writer) is what the statement covers; serde_json::to_value cannot hold integers above u64::MAX and is not checked", "non-finite floats serialise to null, accepted as faithful-as-JSON-allows"],
 };
 
@@ -423,6 +423,9 @@ pub fn oracle(case: &Case) -> Outcome {
     let mut a: Vec<_> = (0..n).map(|i| obs::new_parser(&case.allowed_of(i))).collect();
     let mut b: Vec<_> = (0..n).map(|i| obs::new_parser(&case.allowed_of(i))).collect();
     let mut notes = Notes { big_u128: false, nonfinite: false, escapes: false, data_records: 0 };
+    // results of earlier calls are serialised once more after the whole history (a result must
+    // not depend on what the parser learns later)
+    let mut kept: Vec<(usize, Vec<netflow_parser::NetflowPacket>, String)> = vec![];
     for (ci, c) in case.calls.iter().enumerate() {
         let buf = c.buf();
         let ra = a[c.parser].parse_bytes(&buf);
@@ -438,6 +441,9 @@ pub fn oracle(case: &Case) -> Outcome {
         }
         if w != text.as_bytes() {
             return Outcome::violation(format!("call {}: to_writer and to_string disagree", ci));
+        }
+        if ci + 1 < case.calls.len() && kept.len() < 8 {
+            kept.push((ci, ra.clone(), text.clone()));
         }
         // (3) determinism
         match serde_json::to_string(&ra) {
@@ -495,6 +501,14 @@ pub fn oracle(case: &Case) -> Outcome {
     if notes.data_records >= 2 {
         o.nontrivial = true;
         o.label("data-records>=2");
+    }
+    for (ci, res, text) in &kept {
+        match serde_json::to_string(res) {
+            Ok(t) if &t == text => {
+                o.label("serialised-again-after-later-calls");
+            }
+            _ => return Outcome::violation(format!("call {}: the result serialises differently after later calls than right after its own call", ci)),
+        }
     }
     o
 }
